@@ -242,6 +242,26 @@ def bounded(pb, interp, rng, tier):
                 fail("combined-graph.two-readers.concatenate", f"chunks={chunks}", "concatenated Dask reads differ from the NumPy reads")
     except Exception as e:
         fail("combined-graph.two-readers.raises", "", f"{type(e).__name__}: {str(e)[:150]}")
+    # ---- "every Dask scheduler": a lazy read of a real file under the process scheduler (what the task graph
+    # carries -- reader, arguments, defaults -- must survive pickling) equals the eager read
+    try:
+        import pathlib
+        dd_ = pathlib.Path(pb.__file__).resolve().parent.parent / "tests" / "data"
+        for fname in ("sample.vdif", "sample.dada"):
+            if not (dd_ / fname).exists():
+                continue
+            ev += 1
+            distinct.add(("process-scheduler-read", fname))
+            rr = pb.readers.BasebandReader(dd_ / fname)
+            want_ = np.asarray(rr.read(3, 64).data)
+            try:
+                got_ = np.asarray(rr.dask_read(3, 64).data.compute(scheduler="processes", num_workers=2))
+                if not np.array_equal(got_, want_):
+                    fail("reader.process-scheduler.values", fname, "differs from the eager read")
+            except Exception as e:
+                fail("reader.process-scheduler.raises", fname, f"{type(e).__name__}: {str(e)[:150]}")
+    except Exception as e:
+        fail("reader.process-scheduler.harness", "", f"{type(e).__name__}: {str(e)[:150]}")
     # lazily built per-channel chirps must stay distinct even when the channel frequencies differ
     # only in the 9th significant digit (task names derived from a lossy token would collide)
     ev += 1
